@@ -129,7 +129,7 @@ def check_projection(case, ctx):
     scale = float(np.linalg.norm(x))
     tol = tol_eps(eps, scale)
     c_sys = build.c_sys_for(shape)
-    q = build.make(c_sys, t, x, m=m, on_para_eq_constraint=flag, mode_proj_order=order, eps_proj_physical=eps)
+    q = build.make(c_sys, t, x, m=m, mshape=obj.get("mshape"), on_para_eq_constraint=flag, mode_proj_order=order, eps_proj_physical=eps)
     ctx.label(t, shape, case["class"], order, f"eps:{eps:g}", f"flag:{flag}")
 
     x_before = x.copy()
@@ -178,7 +178,7 @@ def check_projection(case, ctx):
 
     # (5) order independence
     other = "ineq_eq" if order == "eq_ineq" else "eq_ineq"
-    q2 = build.make(c_sys, t, x, m=m, on_para_eq_constraint=flag, mode_proj_order=other, eps_proj_physical=eps)
+    q2 = build.make(c_sys, t, x, m=m, mshape=obj.get("mshape"), on_para_eq_constraint=flag, mode_proj_order=other, eps_proj_physical=eps)
     res2, hist2 = q2.calc_proj_physical(is_iteration_history=True)
     if len(hist2["x"]) - 1 < 1000:
         ctx.close(build.stacked_of(res2), z, 2 * tol, "order_independence")
@@ -188,7 +188,7 @@ def check_projection(case, ctx):
     if flag:
         # the constrained parametrisation can only represent inputs on the equality set
         x_eq = rm.proj_eq_stacked(t, x, d, m)
-        q_eq = build.make(c_sys, t, x_eq, m=m, on_para_eq_constraint=True, mode_proj_order=order, eps_proj_physical=eps)
+        q_eq = build.make(c_sys, t, x_eq, m=m, mshape=obj.get("mshape"), on_para_eq_constraint=True, mode_proj_order=order, eps_proj_physical=eps)
         var_in = q_eq.to_var()
         res_eq, hist_eq = q_eq.calc_proj_physical(is_iteration_history=True)
         z_obj = build.stacked_of(res_eq)
@@ -294,7 +294,7 @@ def check_sdp(case, ctx):
     x, basis = input_vector(case)
     scale = float(np.linalg.norm(x))
     c_sys = build.c_sys_for(shape)
-    q = build.make(c_sys, t, x, m=m, mode_proj_order=case["order"], eps_proj_physical=eps, on_para_eq_constraint=False)
+    q = build.make(c_sys, t, x, m=m, mshape=obj.get("mshape"), mode_proj_order=case["order"], eps_proj_physical=eps, on_para_eq_constraint=False)
     res, hist = q.calc_proj_physical(is_iteration_history=True)
     if len(hist["x"]) - 1 >= 1000:
         ctx.skip("iteration-cap")
